@@ -61,6 +61,9 @@ def main(argv=None):
                 "PYTHONDONTWRITEBYTECODE": "1", "VERIF_SHARD_BUDGET_S": str(budget), "COLA_VERIF": "1",
                 "PYTHONWARNINGS": "ignore"})
     env.pop("PYTHONPATH", None)
+    if not a.replay:  # replays of earlier runs are stale once a new run starts
+        import shutil
+        shutil.rmtree(os.path.join(HERE, "replays", prop), ignore_errors=True)
     tmpd = tempfile.mkdtemp(prefix=f"verif_{prop}_")
     pending = list(range(nshards))
     running = {}
